@@ -2,6 +2,7 @@ CONSTANTS
   MaxN = @@MaxN@@
   CrossN = @@CrossN@@
   Configs <- @@Configs@@
+  StartT <- @@StartT@@
 SPECIFICATION Spec
 INVARIANTS Laws Emit
 CHECK_DEADLOCK FALSE
